@@ -1,18 +1,26 @@
-// Package h20 holds the harnesses for the CVSS v2.0 package. Everything here
-// uses the exported API only; the reference data below is written from the
-// property text (CVSS v2.0 guide), not from the implementation.
+// Package h20 holds the harnesses for the CVSS v2.0 package. Exported API
+// only; the reference data is written from the property text / CVSS v2.0
+// guide, not from the implementation.
 package h20
 
 import (
 	gocvss20 "github.com/pandatix/go-cvss/20"
 )
 
+type CVSS = gocvss20.CVSS20
+
+var ParseVector = gocvss20.ParseVector
+
+const Header = ""
+
 type metric struct {
 	abv  string
 	vals []string
 }
 
-// metrics in specification order; first value of an optional metric is "ND"
+const nBase = 6
+
+// metrics in specification order; the first value of an optional metric is "ND"
 var metrics = []metric{
 	{"AV", []string{"L", "A", "N"}},
 	{"AC", []string{"L", "M", "H"}},
@@ -28,31 +36,4 @@ var metrics = []metric{
 	{"CR", []string{"ND", "L", "M", "H"}},
 	{"IR", []string{"ND", "L", "M", "H"}},
 	{"AR", []string{"ND", "L", "M", "H"}},
-}
-
-func in(v string, vals []string) bool {
-	for _, x := range vals {
-		if v == x {
-			return true
-		}
-	}
-	return false
-}
-
-// inv is the reachability invariant of DESIGN section 5: every Get returns a
-// value of the metric's list and rebuilding the object through Set from its
-// Get values gives the same object.
-func inv(c gocvss20.CVSS20) bool {
-	var r gocvss20.CVSS20
-	ok := true
-	for _, m := range metrics {
-		v, err := c.Get(m.abv)
-		if err != nil || !in(v, m.vals) {
-			ok = false
-		}
-		if r.Set(m.abv, v) != nil {
-			ok = false
-		}
-	}
-	return ok && r == c
 }
